@@ -9,3 +9,6 @@ import Lace.Props.C15
 #print axioms Lace.C15.eval_never_ends_session_partial
 #print axioms Lace.C15.eval_pc_only_jumps_holds
 #print axioms Lace.C15.eval_never_ends_session_holds
+#print axioms Lace.C15.parseSimple_no_panic_holds
+#print axioms Lace.C15.parseSimple_diag_inside
+#print axioms Lace.C15.eval_text_total
